@@ -49,6 +49,7 @@ type ScopeCfg struct {
 	NoGoto  bool
 	Spaced  bool // token-per-space rendering instead of conventional formatting
 	NoMulti bool // no multiply-assigned globals (every global has at most one definition site)
+	JoinPct int  // see Trivia.JoinPct
 }
 
 // GenScopeWS builds a workspace of valid programs with shadowing, closures and cross-file globals.
@@ -112,7 +113,7 @@ func GenScopeWS(r *Rng, sc ScopeCfg) *ScopeWS {
 			}
 			g.PendingDefs = append([]GDef(nil), plans[i]...)
 			toks := g.Chunk()
-			txt := Render(rr, toks, Trivia{LineEnd: "\n", Indent: true, Pretty: !sc.Spaced})
+			txt := Render(rr, toks, Trivia{LineEnd: "\n", Indent: true, Pretty: !sc.Spaced, JoinPct: sc.JoinPct})
 			pr := RParse([]byte(txt))
 			if !pr.Valid() {
 				panic("harness: scope generator produced invalid program: " + pr.Err + "\n" + txt)
@@ -370,4 +371,49 @@ func fmtLocs(ws *Workspace, locs []Location) string {
 	}
 	sort.Strings(s)
 	return fmt.Sprint(s)
+}
+
+// visitNodes calls fn on n and every node below it.
+func visitNodes(n *Node, fn func(*Node)) {
+	if n == nil {
+		return
+	}
+	fn(n)
+	visitNodes(n.A, fn)
+	visitNodes(n.B, fn)
+	visitNodes(n.C, fn)
+	visitNodes(n.Body, fn)
+	visitNodes(n.Fn, fn)
+	for _, x := range n.List {
+		visitNodes(x, fn)
+	}
+	for _, x := range n.List2 {
+		visitNodes(x, fn)
+	}
+	for _, x := range n.Blocks {
+		visitNodes(x, fn)
+	}
+}
+
+// inForHeaderFuncLit reports whether the byte offset lies inside a function literal written in the header
+// (bounds / iterator expressions) of any enclosing for statement, at any depth.
+func inForHeaderFuncLit(chunk *Node, off int) bool {
+	hit := false
+	visitNodes(chunk, func(s *Node) {
+		if hit || (s.K != SForNum && s.K != SForIn) {
+			return
+		}
+		hdr := []*Node{s.A, s.B, s.C}
+		if s.K == SForIn {
+			hdr = s.List2
+		}
+		for _, e := range hdr {
+			visitNodes(e, func(x *Node) {
+				if x.K == EFunction && x.First != nil && x.Last != nil && off >= x.First.Off && off <= x.Last.End {
+					hit = true
+				}
+			})
+		}
+	})
+	return hit
 }
